@@ -418,15 +418,36 @@ Example C05_nonvacuous_other_exception :
 Proof. vm_compute. reflexivity. Qed.
 
 (* force_reaction: when no flow would become negative it does exactly what __call__ does ... *)
-Theorem C05_force_feasible : forall o v, snd (react_obj o v) = None -> nonneg (fst (react_obj o v)) ->
-  force_process o v = (None, fst (react_obj o v)) /\ process o v = (None, fst (react_obj o v)).
+Theorem C05_force_feasible : forall lg o v, snd (react_obj o v) = None -> nonneg (fst (react_obj o v)) ->
+  force_process lg o v = (None, fst (react_obj o v)) /\ process o v = (None, fst (react_obj o v)).
 Proof. exact force_feasible. Qed.
 Print Assumptions C05_force_feasible.
 
-(* ... but "force_reaction conserves every functional the members annihilate" ... *)
+(* the repaired clean-up (pending_fixes/C05_3, flag legacy = false): force_reaction changes only entries that the reaction
+   left negative, each to 0, so a functional with non-negative weights that the members annihilate (mass, atoms of one
+   element) can only grow, by no more than the weighted negatives removed *)
+Theorem C05_force_repaired : forall o v v' a,
+  Forall (wf (length v)) (obj_members o) -> Forall (balanced a) (obj_members o) ->
+  (forall i, 0 <= nthq a i) ->
+  force_process false o v = (None, v') ->
+  let v1 := fst (react_obj o v) in
+  length v' = length v /\
+  (forall i, nthq v' i = nthq v1 i \/ (nthq v1 i < 0 /\ nthq v' i = 0)) /\
+  0 <= vdot a v' - vdot a v /\ vdot a v' - vdot a v <= - wneg_sum a v1.
+Proof. exact force_repaired_lemma. Qed.
+Print Assumptions C05_force_repaired.
+
+(* on the witness of the legacy defect the repaired definition keeps the methane *)
+Example C05_nonvacuous_force_repaired :
+  exists v', force_process false (Simple false (Single (mkrxn [0; 0; -1; 0; 2; -2; 0; 0] 2 1 false [])))
+               [1152921504606846976; 1; 1; 1; 1; 2 - (1 # 1024); 1; 1] = (None, v') /\
+             veqb v' [1152921504606846976; 1; 0; 1; 3; 0; 1; 1] = true.
+Proof. eexists. split; [vm_compute; reflexivity|]. vm_compute. reflexivity. Qed.
+
+(* ... but for the UNREPAIRED code (legacy = true) "force_reaction conserves every functional the members annihilate" ... *)
 Definition C05_force_conserves_statement : Prop :=
   forall o v v' a, Forall (wf (length v)) (obj_members o) -> Forall (balanced a) (obj_members o) ->
-    force_process o v = (None, v') ->
+    force_process true o v = (None, v') ->
     (forall i, nthq v' i < 0 -> nthq v' i == nthq (fst (react_obj o v)) i) ->   (* negatives it kept are the computed ones *)
     forall amax, 0 <= amax -> bounded amax a -> - (amax * eps) <= vdot a v' - vdot a v <= amax * eps.
 
@@ -437,7 +458,7 @@ Definition exForceFeed : vec := [1152921504606846976; 1; 1; 1; 1; 2 - (1 # 1024)
 Theorem C05_force_conserves_refuted : ~ C05_force_conserves_statement.
 Proof.
   intros H.
-  remember (snd (force_process (Simple false (Single exForceR)) exForceFeed)) as v' eqn:Ev.
+  remember (snd (force_process true (Simple false (Single exForceR)) exForceFeed)) as v' eqn:Ev.
   assert (G : - (46 * eps) <= vdot exW v' - vdot exW exForceFeed <= 46 * eps).
   { refine (H (Simple false (Single exForceR)) exForceFeed v' exW _ _ _ _ 46 _ _).
     - repeat constructor.
